@@ -2,6 +2,7 @@ package model
 
 import (
 	"context"
+	"errors"
 
 	"github.com/pdfcpu/pdfcpu/internal/zzverif/vp"
 )
@@ -25,4 +26,29 @@ func VerifNoPanicParse() {
 		ParseObjectContext(context.Background(), &line, 0, 2)
 	}
 	vp.Assert(true, "returned")
+}
+
+// VerifParseDepthLimit (C08, "no unbounded recursion"): a nest of D+2 containers - every level an array
+// or a dictionary value, chosen per level, followed by arbitrary bytes - must be refused with
+// ErrMaxRecursionDepthExceeded under a depth limit of D, whatever the mix of arrays and dictionaries:
+// a level that does not count lets an attacker recurse as deep as the input is long.
+func VerifParseDepthLimit() {
+	d := vp.IntRange(1, vp.Bound("DEPTH"))
+	s := ""
+	for i := 0; i < d+2; i++ {
+		if vp.Bool() {
+			s += "["
+		} else {
+			s += "<</K"
+		}
+		// an arbitrary white-space byte between the levels
+		w := vp.Byte()
+		vp.Assume(w == 0 || w == 9 || w == 10 || w == 12 || w == 13 || w == 32)
+		s += string([]byte{w})
+	}
+	s += vp.String(vp.IntRange(0, 1))
+	line := s
+	_, err := ParseObjectContext(context.Background(), &line, 0, d)
+	vp.Assert(err != nil, "a nest deeper than the recursion limit was parsed")
+	vp.Assert(errors.Is(err, ErrMaxRecursionDepthExceeded), "a nest deeper than the recursion limit was not refused with ErrMaxRecursionDepthExceeded")
 }
